@@ -161,7 +161,18 @@ pub fn operands(ty: &str) -> Vec<Opnd> {
         Opnd::Range(Some(p[3]), Some(p[3])),
         Opnd::Range(None, Some(p[2])),
         Opnd::Range(Some(p[3]), None),
+        // index 10 (used only by the `foreign` family): a string with one character outside the type's alphabet
+        Opnd::Str(vec![p[1], foreign_char(ty), p[2]]),
     ]
+}
+/// a character that is not in the alphabet of the (restricted) type
+pub fn foreign_char(ty: &str) -> char {
+    match ty {
+        "Numeric" => 'a',
+        "Printable" => '@',
+        "BMP" => '\u{1F600}',
+        _ => '\u{e9}', // Visible / IA5; UniversalString has no foreign characters
+    }
 }
 fn opnd_set(o: &Opnd, b: &Set) -> Set {
     match o {
@@ -447,6 +458,20 @@ impl Prop for C15 {
                     }
                 }
             }
+            // a FROM string with a character outside the type's own alphabet: must be rejected, or at least never emitted
+            if ty != "Universal" {
+                for ctx in ["assign", "component"] {
+                    for size in ["none", "before", "after", "inter", "inter-rev"] {
+                        out.push(Case { ty: ty.into(), cons: vec![Expr { operands: vec![10], ops: vec![] }], size: size.into(), ctx: ctx.into() });
+                    }
+                    for b in [0usize, 4, 8] {
+                        for op in ['U', 'I'] {
+                            out.push(Case { ty: ty.into(), cons: vec![Expr { operands: vec![10, b], ops: vec![op] }], size: "none".into(), ctx: ctx.into() });
+                            out.push(Case { ty: ty.into(), cons: vec![Expr { operands: vec![b, 10], ops: vec![op] }], size: "none".into(), ctx: ctx.into() });
+                        }
+                    }
+                }
+            }
             // one witness row each for the constructions that are known not to work at all (see known_findings.txt)
             for e in e1.iter() {
                 out.push(Case { ty: ty.into(), cons: vec![e.clone()], size: "none".into(), ctx: "include".into() });
@@ -537,6 +562,33 @@ impl Prop for C15 {
         }
         // operands must lie inside the base alphabet (pool is chosen that way) — sanity
         let o = compile1(&src);
+        let foreign = c.cons.iter().any(|e| e.operands.contains(&10));
+        if foreign {
+            // the constraint is not a legal subtype of the base type: any rejection is fine; an annotation, if one is
+            // emitted, must stay inside the base alphabet
+            return match &o {
+                Outcome::Panic { message, location } => CaseResult { discs: vec![Disc::new(format!("panic|{location}"), format!("{message}\n{src}"))], nontrivial: false, outcome: "panic".into(), skipped: None },
+                Outcome::Ok { generated, warnings } if warnings.is_empty() => {
+                    let mut discs = vec![];
+                    if let (Some(b), Ok(p)) = (&b, project(generated)) {
+                        let bad = p.only().map_or(false, |m| {
+                            m.items.iter().any(|it| {
+                                let mut attrs: Vec<&RasnAttr> = it.attrs().map(|a| vec![&a.rasn]).unwrap_or_default();
+                                if let Item::Struct { fields, .. } = it {
+                                    attrs.extend(fields.iter().map(|f| &f.attrs.rasn));
+                                }
+                                attrs.iter().any(|a| a.get("from").and_then(parse_from).map_or(false, |s| !subset(&s, b)))
+                            })
+                        });
+                        if bad {
+                            discs.push(Disc::new(format!("alphabet|foreign-char-emitted|type={}|ctx={}|size={}", c.ty, c.ctx, c.size), format!("a character outside the base alphabet reaches the annotation\n{src}\n--- generated ---\n{generated}")));
+                        }
+                    }
+                    CaseResult { discs, nontrivial: true, outcome: "foreign:accepted".into(), skipped: None }
+                }
+                _ => CaseResult { discs: vec![], nontrivial: true, outcome: "foreign:rejected".into(), skipped: None },
+            };
+        }
         let gen = match &o {
             Outcome::Ok { generated, warnings } if warnings.is_empty() => generated.clone(),
             Outcome::Panic { message, location } => return CaseResult { discs: vec![Disc::new(format!("panic|{location}"), format!("{message}\n{src}"))], nontrivial: false, outcome: "panic".into(), skipped: None },
